@@ -598,5 +598,6 @@ def k_month_nine_star(eng):
             return [("star", "(= %s (mod (- (- %s 1) %s) 9))" % (p.ret.idx.s, start, pos))]
         return ctx, paths, pre, posts, shape
 
-    r = run_kernel(eng, "17.d/B/month-nine-star", "17.d", "every year -1..9999, every index in year 0..12", build, None, None)
+    from .almanac import _scan_replay
+    r = run_kernel(eng, "17.d/B/month-nine-star", "17.d", "every year -1..9999, every index in year 0..12", build, None, _scan_replay(9, "month nine star rule"))
     return _finish(r, holder["ctx"]) if "ctx" in holder else r
